@@ -60,6 +60,15 @@ func (l *DeadlineLimiter) tryAcquire(ctx context.Context) (listener core.Listene
 			return listener, true
 		}
 
+		// Register for the release signal first and check once more: a release that happens between
+		// a failed attempt and the wait would otherwise be lost.
+		ready := armSignal(l.c)
+		listener, ok = l.delegate.Acquire(ctx)
+		if ok && listener != nil {
+			l.logger.Debugf("delegate returned a listener ctx=%v", ctx)
+			return listener, true
+		}
+
 		// We have reached the limit so block until a token is released
 		timeout := l.deadline.Sub(time.Now().UTC())
 		if timeout <= 0 {
@@ -72,7 +81,7 @@ func (l *DeadlineLimiter) tryAcquire(ctx context.Context) (listener core.Listene
 		// - A timeout
 		// - The context is cancelled
 		l.logger.Debugf("Blocking waiting for release or timeout ctx=%v", ctx)
-		if shouldAcquire := blockUntilSignaled(ctx, l.c, timeout); shouldAcquire {
+		if shouldAcquire := waitSignal(ctx, ready, timeout); shouldAcquire {
 			listener, ok := l.delegate.Acquire(ctx)
 			if ok && listener != nil {
 				l.logger.Debugf("delegate returned a listener ctx=%v", ctx)
